@@ -4,7 +4,7 @@ From Coq Require Import List Arith Bool NArith.
 From GV Require Import Base.Result Gen.TokenTypes Gen.Defs Gen.Instr Model.Parser Model.BuilderWL Model.Compile
   Spec.Depth Proofs.C05.Known Proofs.C05.Bounded Proofs.C06.Known Proofs.C06.DepthSound Proofs.C06.Dynamic
   Proofs.C06.Bounded Proofs.C06.Bounded7 Proofs.C06.Refuted Proofs.C06.Balanced Proofs.C06.BalancedBounded.
-From GV Require Import Proofs.C06.Statements Proofs.C06.StaticFull.
+From GV Require Import Proofs.C06.Statements Proofs.C06.StaticFull Proofs.Builder.Transport.
 Import ListNotations.
 
 (* ---- static half: the checker ---- *)
@@ -49,6 +49,16 @@ Theorem C06_static_full : forall init lit t r,
   exists d, typed p d /\ ends_at_one p d /\ exists e, pjump p (snd r) = Some e /\ d e = Some (0, 0).
 Proof. exact C06_static_full_proof. Qed.
 Print Assumptions C06_static_full.
+
+(* ... directly on BuilderWL.build (by compile_agrees_full, Properties/C05.v): every
+   successful build of a proper tree that keeps the discipline is typable *)
+Theorem C06_static_full_builder : forall nodes root t init lit fuel r,
+  tree_of nodes root = Some t -> balanced t = true ->
+  build nodes init lit fuel root = Ok r ->
+  let p := prog_of_build init r in
+  exists d, typed p d /\ ends_at_one p d /\ exists e, pjump p (snd r) = Some e /\ d e = Some (0, 0).
+Proof. exact C06_static_full_builder_proof. Qed.
+Print Assumptions C06_static_full_builder.
 
 (* every accepted program without a bare `;;` and outside C06-K1..K4 keeps the
    discipline (bounded: the trees the parser produces from these inputs) *)
